@@ -3,6 +3,7 @@
 from __future__ import annotations
 
 import ast
+import re
 
 from sa.cfg import cfg_of
 from sa.facts import canon
@@ -174,18 +175,78 @@ def run(ctx: Ctx):
     # level) is outside what this rule can decide: fail closed rather than call a possibly correct build a violation
     ctx.require(any(isinstance(n, ast.BinOp) and isinstance(n.op, ast.BitOr) for n in own_nodes(fi.node)), "FenwickTree.__init__ no longer propagates cells through the parent step `i | (i + 1)`: the build scheme is not one this check can decide")
     step_ctor = [n.value for n in own_nodes(fi.node) if isinstance(n, ast.Assign) and ast.unparse(n.targets[0]) == "j"]
-    step_upd = [n for n in own_nodes(up.node) if isinstance(n, ast.AugAssign) and ast.unparse(n.target) == "i"]
     want = canon(ast.parse("i | (i + 1)", mode="eval").body)
-    ok = len(step_ctor) == 1 and canon(step_ctor[0]) == want and len(step_upd) == 1 and isinstance(step_upd[0].op, ast.BitOr) and canon(ast.BinOp(left=ast.Name(id="i", ctx=ast.Load()), op=ast.BitOr(), right=step_upd[0].value)) == want
-    ctx.ob("C20-O3", "R18 SIBLING-AGREEMENT (expression)", up, "constructor propagation and update walk use the same parent step i | (i + 1)", ok, f"ctor `{ast.unparse(step_ctor[0]) if step_ctor else '?'}` / update `i |= {ast.unparse(step_upd[0].value) if step_upd else '?'}`", node=up.node)
-    tu = ast.unparse(up.node)
-    ctx.ob("C20-O3", "R18 table", up, "update adds delta to every node on the walk while i < n", "while i < self._n:\n        self._tree[i] += delta" in tu, "", node=up.node)
+
+    def walk_of(f):
+        """(family, index var, loop) of a Fenwick walk: family Z = 0-based (i |= i + 1 / i = (i & (i + 1)) - 1),
+        family O = 1-based lowbit (k += k & -k / k -= k & -k); local aliases of self._tree / self._n are resolved"""
+        alias = {}
+        for n in own_nodes(f.node):
+            if isinstance(n, ast.Assign) and len(n.targets) == 1:
+                t, v = n.targets[0], n.value
+                if isinstance(t, ast.Name) and ast.unparse(v) in ("self._tree", "self._n"):
+                    alias[t.id] = ast.unparse(v)
+                elif isinstance(t, ast.Tuple) and isinstance(v, ast.Tuple) and len(t.elts) == len(v.elts):
+                    for a_, b_ in zip(t.elts, v.elts):
+                        if isinstance(a_, ast.Name) and ast.unparse(b_) in ("self._tree", "self._n"):
+                            alias[a_.id] = ast.unparse(b_)
+
+        def txt(e):
+            t = ast.unparse(e)
+            for k_, v_ in alias.items():
+                t = re.sub(rf"(?<![\w.]){k_}(?![\w])", v_, t)
+            return t
+
+        loops = [n for n in own_nodes(f.node) if isinstance(n, ast.While)]
+        if len(loops) != 1:
+            return None
+        w = loops[0]
+        for st_ in w.body:
+            if isinstance(st_, ast.AugAssign) and isinstance(st_.target, ast.Name):
+                x = st_.target.id
+                v = ast.unparse(st_.value)
+                has_and = any(isinstance(b_, ast.BinOp) and isinstance(b_.op, ast.BitAnd) for b_ in ast.walk(st_.value))
+                if isinstance(st_.op, ast.BitOr):
+                    return ("Z-up", x, w, txt, v == f"{x} + 1")
+                if isinstance(st_.op, ast.Add) and has_and:
+                    return ("O-up", x, w, txt, v == f"{x} & -{x}")
+                if isinstance(st_.op, ast.Sub) and has_and:
+                    return ("O-down", x, w, txt, v == f"{x} & -{x}")
+            if isinstance(st_, ast.Assign) and isinstance(st_.targets[0], ast.Name):
+                x = st_.targets[0].id
+                if x in names_in(w.test) and any(isinstance(b_, ast.BinOp) and isinstance(b_.op, (ast.BitAnd, ast.BitOr)) for b_ in ast.walk(st_.value)):
+                    good = canon(st_.value) == canon(ast.parse(f"({x} & ({x} + 1)) - 1", mode="eval").body)
+                    if any(isinstance(b_, ast.BinOp) and isinstance(b_.op, ast.BitOr) for b_ in ast.walk(st_.value)):
+                        return ("Z-up", x, w, txt, canon(st_.value) == canon(ast.parse(f"{x} | ({x} + 1)", mode="eval").body))
+                    return ("Z-down", x, w, txt, good)
+        return None
+
+    wu, wp = walk_of(up), walk_of(pf)
+    ctx.require(wu is not None and wu[0] in ("Z-up", "O-up"), "FenwickTree.update is not a walk this check recognises (neither `i |= i + 1` nor `k += k & -k`): cannot decide C20-O3")
+    ctx.require(wp is not None and wp[0] in ("Z-down", "O-down"), "FenwickTree.prefix is not a walk this check recognises (neither `i = (i & (i + 1)) - 1` nor `k -= k & -k`): cannot decide C20-O3")
+    fam, x, w, txt, step_ok = wu
+    body_t = [txt(b_) for b_ in w.body]
+    init = [txt(n.value) for n in own_nodes(up.node) if isinstance(n, ast.Assign) and ast.unparse(n.targets[0]) == x]
+    if fam == "Z-up":
+        ok = txt(w.test) == f"{x} < self._n" and f"self._tree[{x}] += delta" in body_t and (x == "i" or init == ["i"])
+        shape = f"0-based walk: `while {x} < n: tree[{x}] += delta`"
+    else:
+        ok = txt(w.test) == f"{x} <= self._n" and f"self._tree[{x} - 1] += delta" in body_t and init == ["i + 1"]
+        shape = f"1-based walk from i + 1: `while {x} <= n: tree[{x} - 1] += delta`"
+    ctx.ob("C20-O3", "R18 table", up, "update adds delta to every node on the walk up to and including the last node of the tree", ok and step_ok, f"expected {shape}; found test `{txt(w.test)}`, body {body_t}, start {init}: a walk that stops one node early loses updates in the last block", node=w)
+    ok = len(step_ctor) == 1 and canon(step_ctor[0]) == want
+    ctx.ob("C20-O3", "R18 SIBLING-AGREEMENT (expression)", up, "constructor propagation uses the parent step i | (i + 1), the step of the update walk", ok, f"ctor `{ast.unparse(step_ctor[0]) if step_ctor else '?'}` / update family {fam}", node=up.node)
     tc = ast.unparse(fi.node)
-    ctx.ob("C20-O3", "R18 table", fi, "constructor pushes each cell into its parent once, in increasing order, when the parent exists", "for i in range(self._n):" in tc and any(isinstance(n, ast.If) and ast.unparse(n.test) == "j < self._n" and [ast.unparse(x) for x in n.body] == ["self._tree[j] += self._tree[i]"] and not n.orelse for n in own_nodes(fi.node)), "", node=fi.node)
+    ctx.ob("C20-O3", "R18 table", fi, "constructor pushes each cell into its parent once, in increasing order, when the parent exists", "for i in range(self._n):" in tc and any(isinstance(n, ast.If) and ast.unparse(n.test) == "j < self._n" and [ast.unparse(x_) for x_ in n.body] == ["self._tree[j] += self._tree[i]"] and not n.orelse for n in own_nodes(fi.node)), "", node=fi.node)
+    fam, x, w, txt, step_ok = wp
+    body_t = [txt(b_) for b_ in w.body]
+    init = [txt(n.value) for n in own_nodes(pf.node) if isinstance(n, ast.Assign) and ast.unparse(n.targets[0]) == x]
     tp = ast.unparse(pf.node)
-    step_q = [n.value for n in own_nodes(pf.node) if isinstance(n, ast.Assign) and ast.unparse(n.targets[0]) == "i"]
-    ok = len(step_q) == 1 and canon(step_q[0]) == canon(ast.parse("(i & (i + 1)) - 1", mode="eval").body) and "while i >= 0:\n        total += self._tree[i]" in tp and "total = 0.0" in tp and "return total" in tp
-    ctx.ob("C20-O3", "R18 table", pf, "prefix accumulates _tree[i] along i -> (i & (i + 1)) - 1 while i >= 0", ok, "", node=pf.node)
+    if fam == "Z-down":
+        ok = txt(w.test) == f"{x} >= 0" and f"total += self._tree[{x}]" in body_t and (x == "i" or init == ["i"])
+    else:
+        ok = txt(w.test) == f"{x} > 0" and f"total += self._tree[{x} - 1]" in body_t and init == ["i + 1"]
+    ctx.ob("C20-O3", "R18 table", pf, "prefix accumulates the nodes of the downward walk from position i, starting from 0.0, and returns the total", ok and step_ok and "total = 0.0" in tp and "return total" in tp, f"family {fam}, test `{txt(w.test)}`, body {body_t}", node=pf.node)
     tr = ast.unparse(rs.node)
     cfg = cfg_of(rs.node)
     sub = [n for n in own_nodes(rs.node) if isinstance(n, ast.AugAssign) and isinstance(n.op, ast.Sub)]
@@ -201,6 +262,28 @@ def run(ctx: Ctx):
 from sa import mutate as M  # noqa: E402
 
 DS = "solvor/utils/data_structures.py"
+
+
+LOWBIT_UPDATE = "tree, n = self._tree, self._n\nk = i + 1\nwhile k %s n:\n    tree[k - 1] += delta\n    k += k & -k"
+LOWBIT_PREFIX = "tree = self._tree\ntotal = 0.0\nk = i + 1\nwhile k > 0:\n    total += tree[k - 1]\n    k -= k & -k\nreturn total"
+
+
+def _lowbit(tree, op):
+    g = M.find_func(tree, "FenwickTree.update")
+    doc = [s for s in g.body if isinstance(s, ast.Expr) and isinstance(s.value, ast.Constant)]
+    g.body = doc + M.stmts(LOWBIT_UPDATE % op)
+    h = M.find_func(tree, "FenwickTree.prefix")
+    doc = [s for s in h.body if isinstance(s, ast.Expr) and isinstance(s.value, ast.Constant)]
+    h.body = doc + M.stmts(LOWBIT_PREFIX)
+
+
+def _v_lowbit_update_stops_early(tree):
+    _lowbit(tree, "<")
+
+
+def _t_lowbit_walks(tree):
+    """equally valid: both walks in the textbook 1-based lowbit form"""
+    _lowbit(tree, "<=")
 
 
 def _v_connected_writes(tree):
@@ -273,6 +356,8 @@ VARIANTS = [
     M.Variant("prefix walks with the wrong step", DS, _v_prefix_step, "C20-O3"),
     M.Variant("range_sum subtracts prefix(-1)", DS, _v_range_unguarded, "C20-O3"),
     M.Variant("FenwickTree aliases the caller's list", DS, _v_alias_values, "C20-O1"),
+    M.Variant("1-based lowbit update walk keeps the 0-based bound `k < n` (seed C20-F)", DS, _v_lowbit_update_stops_early, "C20-O3"),
+    M.Variant("twin: both walks rewritten in 1-based lowbit form", DS, _t_lowbit_walks, None),
     M.Variant("twin: reformat", DS, _t_reformat, None),
     M.Variant("twin: rename a local", DS, _t_rename, None),
 ]
